@@ -221,6 +221,11 @@ pub fn gen_header_value(t: &mut Tape) -> Vec<u8> {
     let n = t.below(12);
     let mut v: Vec<u8> = Vec::new();
     for _ in 0..n {
+        if t.chance(30) {
+            // a genuine U+FFFD (what a lossy decoder turns any undecodable byte into)
+            v.extend(b"\xef\xbf\xbd");
+            continue;
+        }
         let c = match t.below(12) {
             0 => b' ',
             1 => b'\t',
@@ -539,7 +544,7 @@ pub fn sign_message(t: &mut Tape, mut l: Logical, node: &Node, acct: &Account, a
         if !t.chance(4) {
             signed.push(date_name.to_string());
         }
-        if date_name == "x-amz-date" && t.chance(10) {
+        if date_name == "x-amz-date" && t.chance(6) {
             // the HTTP stack stamps its own Date header as well (RFC 1123 text, or a stale or
             // current ISO one): X-Amz-Date is the one that counts
             let v: Vec<u8> = match t.below(3) {
